@@ -111,8 +111,14 @@ class Controller:
         if db._held is not None or db._lock.locked():
             return False
         b = h.builder
-        if b.hash_queue.in_flight or b.done_tasks or b.wake_job_loop.is_set():
+        if b.done_tasks or b.wake_job_loop.is_set():
             return False
+        # A queued hash job only counts as activity when it runs or can start:
+        # with every job slot taken by parked steps it legitimately waits for one of them.
+        slots_free = len(b.running_tasks) < b.njob
+        for job in b.hash_queue.in_flight.values():
+            if job.started or slots_free:
+                return False
         if self.build.rpc_in_flight > 0:
             return False
         for run in h.executor.running.values():
